@@ -370,7 +370,7 @@ func (w *World) makeVector(r *Run, status string) *Vector {
 	sort.Strings(v.Known)
 	memo := map[*Term]uint64{}
 	for _, ir := range r.inputs {
-		if !nativeInput(ir) {
+		if ir.Env {
 			continue
 		}
 		v.Values = append(v.Values, r.witness[ir.Name]&maskB(ir.W))
@@ -435,7 +435,7 @@ func violationVector(h *Harness, v *Violation) *Vector {
 	}
 	sort.Strings(vec.Known)
 	for _, ir := range v.Inputs {
-		if !nativeInput(ir) {
+		if ir.Env {
 			continue
 		}
 		vec.Values = append(vec.Values, v.Model[ir.Name]&maskB(ir.W))
